@@ -39,9 +39,21 @@ def build(cls, z, x, af, eff):
     elif cls in ('probe', 'system'):         # the system wraps a probe: delegation must reach angle-dependent gains
         a = Probe(position=pos, z_axis=z, x_axis=x, antenna_factor=af, efficiency=eff, noisy=False)
     else:
+        # a neighbour with a band a fraction of a MHz away exists before the dipole under test: each dipole's band-pass is its own
+        pyrex.DipoleAntenna('neighbour', pos, center_frequency=250.3e6, bandwidth=300.2e6, temperature=300, resistance=50,
+                            orientation=z, effective_height=1.0, noisy=False)
         a = UnitDipole('d', pos, center_frequency=250e6, bandwidth=300e6, temperature=300, resistance=50,
                        orientation=z, effective_height=1.0 / af, noisy=False)
         a.efficiency = eff
+        real = pyrex.DipoleAntenna('r', pos, center_frequency=250e6, bandwidth=300e6, temperature=300, resistance=50,
+                                   orientation=z, effective_height=1.0, noisy=False)
+        import scipy.signal
+        fr = np.array([5e7, 1e8, 2.5e8, 4e8, 8e8])
+        _, h = scipy.signal.freqs(*scipy.signal.butter(1, 2 * np.pi * np.array([100e6, 400e6]), btype='bandpass', analog=True), 2 * np.pi * fr)
+        got = np.asarray(real.frequency_response(fr))
+        if not np.allclose(got, h, rtol=1e-9, atol=1e-12):
+            raise Divergence('DipoleAntenna(250 MHz, 300 MHz bandwidth).frequency_response at %s' % list(fr),
+                             'first-order Butterworth band-pass 100-400 MHz: %s' % list(np.round(h, 6)), list(np.round(got, 6)))
     if cls == 'system':
         s = Sys(a)
         return s, a
